@@ -6,12 +6,13 @@
 From VF Require Import Region Freelist Alloc Truncate RegionProofs AllocProofs TxAllocProofs MetaAllocProofs TruncateProofs.
 From Coq Require Import Lia ZifyBool.
 
-Theorem rollback_keeps_committed_extent a0 p a t sz :
+Theorem rollback_keeps_committed_extent a0 p a t otherEnd sz :
   Inv0 a0 -> treach a0 p a t -> a_end (meta a) - a_end (data a0) < 2^32 -> 0 < pageSize a0 ->
   let r := rollback a t in
-  match rollback_truncate (a_end (meta r)) (a_end (data r)) sz (pageSize r) (maxPages r) with
-  | Some n => n < sz /\ n = Z.max (a_end (meta a0)) (a_end (data a0)) * pageSize a0 /\
-              forall id, 0 <= id < Z.max (a_end (meta a0)) (a_end (data a0)) -> (id + 1) * pageSize a0 <= n
+  match rollback_truncate (a_end (meta r)) (a_end (data r)) otherEnd sz (pageSize r) (maxPages r) with
+  | Some n => n < sz /\ n = Z.max (Z.max (a_end (meta a0)) (a_end (data a0))) otherEnd * pageSize a0 /\
+              (forall id, 0 <= id < Z.max (a_end (meta a0)) (a_end (data a0)) -> (id + 1) * pageSize a0 <= n) /\
+              (forall id, 0 <= id < otherEnd -> (id + 1) * pageSize a0 <= n)
   | None => True
   end.
 Proof.
@@ -19,6 +20,6 @@ Proof.
   pose proof (rollback_exact_full a0 p a t I R Hs) as H. cbv zeta in H.
   destruct H as (Hmp & Hpsz & _ & _ & _ & Hme & _ & _ & _ & Hde & _).
   rewrite Hme, Hde, Hpsz, Hmp.
-  destruct (rollback_truncate (a_end (meta a0)) (a_end (data a0)) sz (pageSize a0) (maxPages a0)) as [n|] eqn:E; [|exact Logic.I].
-  exact (rollback_truncate_spec _ _ _ _ _ _ Hps E).
+  destruct (rollback_truncate (a_end (meta a0)) (a_end (data a0)) otherEnd sz (pageSize a0) (maxPages a0)) as [n|] eqn:E; [|exact Logic.I].
+  exact (rollback_truncate_spec _ _ _ _ _ _ _ Hps E).
 Qed.
